@@ -197,7 +197,9 @@ def check_literals(run, m, tag):
         pass
     f = m.tb.fn("::tokenizer::integer_or_float")
     if f is not None:
-        t = m.tb.fn_term(f, inline_pure=True)
+        t = m.tb.deep_term(f)
+        FLOAT = ("|", ("Some", ("ctor", "Number::Float", ("try", ("okopt", ("call", "str::parse::<f64>", ("param", "?x")))))),
+                 ("match", ("call", "str::parse::<f64>", ("param", "?x")), (("pvar", "Result::Ok", ("bind", "?f")), ("Some", ("ctor", "Number::Float", ("var", "?f")))), (("pvar", "Result::Err", "_"), ("None",))))
         e = M(("match", ("call", "str::parse::<i64>", ("param", "?x")), (("pvar", "Result::Ok", ("bind", "?i")), ("Some", ("ctor", "Number::Integer", ("var", "?i")))),
-               (("pvar", "Result::Err", "_"), ("Some", ("ctor", "Number::Float", ("try", ("okopt", ("call", "str::parse::<f64>", ("param", "?x")))))))), t)
+               (("pvar", "Result::Err", "_"), FLOAT)), t)
         run.ob(e is not None, "literal-helper|%s" % ev, "%s integer literal: Integer when it fits i64, otherwise the Float of the same text (None if that fails too)" % tag, f.key, T.show(t)[:300])
